@@ -110,3 +110,20 @@ Section Equivariance.
     apply Rlt_le, Rinv_0_lt_compat, pow_lt. exact Hc.
   Qed.
 End Equivariance.
+
+(* ---- C12: the log-normal likelihood is equivariant under x -> c x, mu -> mu + ln c (log-scale parameter) *)
+Section LogEquivariance.
+  Variable g0 : R -> R.   (* standard normal density (any function: only the argument matters) *)
+  Definition dens_ln (mu sigma x : R) : R := g0 ((ln x - mu) / sigma) / (x * sigma).
+  Fixpoint lik_ln (mu sigma : R) (xs : list R) : R := match xs with [] => 1 | x :: xs' => dens_ln mu sigma x * lik_ln mu sigma xs' end.
+  Lemma dens_ln_scaled c mu sigma x : 0 < c -> 0 < x -> sigma <> 0 -> dens_ln (mu + ln c) sigma (c * x) = dens_ln mu sigma x / c.
+  Proof. intros Hc Hx Hs. unfold dens_ln. rewrite ln_mult by assumption.
+    replace ((ln c + ln x - (mu + ln c)) / sigma) with ((ln x - mu) / sigma) by (field; exact Hs). field. repeat split; lra. Qed.
+  Theorem lognormal_likelihood_equivariant c mu sigma xs : 0 < c -> sigma <> 0 -> Forall (fun x => 0 < x) xs ->
+    lik_ln (mu + ln c) sigma (map (Rmult c) xs) = lik_ln mu sigma xs / c ^ (List.length xs).
+  Proof.
+    intros Hc Hs Hx. induction Hx as [|x xs Hx0 _ IH]; cbn [lik_ln map List.length pow].
+    - field.
+    - rewrite IH, dens_ln_scaled by assumption. field. split; [apply pow_nonzero|]; lra.
+  Qed.
+End LogEquivariance.
